@@ -58,6 +58,8 @@ def intervals(draw, allow_degenerate=True, max_exp=6):
 def regions(draw, allow_degenerate=False, max_exp=6):
     w, e = draw(intervals(allow_degenerate, max_exp))
     s, n = draw(intervals(allow_degenerate, max_exp))
+    if draw(st.integers(0, 5)) == 0:
+        s, n = w, e  # a square region with the same limits in both directions (W == S, E == N)
     return [w, e, s, n]
 
 
